@@ -33,6 +33,7 @@ FILES = [
     ["a, b, pp: t\n", "qr:\n"],
     ["a: t, u::x, u::y, v\n"],
     ["b: u::x\n", "qr: u::x, t\n", "a\n"],
+    ["a: t\n", "b, pp: t, u::x\n", "qr: u::x\n"],
 ]
 SUBS = [("a",), ("a", "pp", "zz"), ()]
 PRED_P = ("a", "pp")
@@ -124,7 +125,7 @@ def ops_for(models, depth_left, tier_small):
                 continue
             for ti in tsi:
                 out.append(("insert", o, p, ti))
-        for fi in (1, 2):
+        for fi in (1, 6):
             out.append(("read", o, fi))
         if len(models) >= 3:
             continue
@@ -313,7 +314,7 @@ def units(tier, seed):
     out = []
     for fi in range(len(FILES)):
         for tf in (False, True):
-            if tf and fi not in (1, 2, 5):
+            if tf and fi not in (1, 2, 5, 6):
                 continue
             models = [M(parse_file(FILES[fi], tf), {}, 0)]
             models[0].rdb = m_rev(models[0].db)
